@@ -102,7 +102,10 @@ func mkPod(tok string) *api.PodSandbox {
 	if tok == "" {
 		return nil
 	}
-	return &api.PodSandbox{Id: tok, Name: "n-" + tok}
+	// the pod carries resources and overhead of its own: a stub must not hand those to a handler in place of
+	// a section the message does not have
+	return &api.PodSandbox{Id: tok, Name: "n-" + tok,
+		Linux: &api.LinuxPodSandbox{PodOverhead: mkRes("pod-overhead-of-" + tok), PodResources: mkRes("pod-resources-of-" + tok)}}
 }
 
 func mkCtr(tok string) *api.Container {
